@@ -463,6 +463,10 @@ func genC11b(g *G) {
 		if r.Intn(40) == 0 {
 			nu = r.Intn(2)
 		}
+		many := r.Intn(6) == 0 // many small inputs: result index sets with two-digit members (11, 12, …)
+		if many {
+			nu = 11 + r.Intn(16)
+		}
 		var cus []s2.CellUnion
 		var base []s2.CellID
 		for i := 0; i < nu; i++ {
@@ -481,6 +485,10 @@ func genC11b(g *G) {
 			}
 			if len(u) > 24 {
 				u = u[:24]
+			}
+			if many && len(u) > 3 {
+				k := r.Intn(len(u) - 2)
+				u = u[k : k+3]
 			}
 			if r.Intn(4) > 0 {
 				u = refNormalize(u)
